@@ -311,9 +311,9 @@ def rule_sp_route(ctx: RuleContext, p: Program, rid: str) -> None:
     import itertools
     from . import possem
     from .tokenstore import TS
-    ctx.rule(rid, 'the string accessors, interpreted: _text_to_tokens, for every string of up to 4 characters over {space, tab, CR, LF, x}, yields '
-                  'one Whitespace per maximal run of blanks and one Newline per line terminator (CR* LF), in order, each with exactly its text '
-                  '(characters that are neither are skipped); _tokens_to_text concatenates raw_text of every token; spacing_before / '
+    ctx.rule(rid, 'the string accessors, interpreted (with whatever helpers of other modules they call): _text_to_tokens, for every spacing text of '
+                  'up to 5 units over {space, tab, LF, CRLF} -- the domain of the property --, yields one Whitespace per maximal run of blanks and '
+                  'one Newline per line terminator, in order, each with exactly its text; _tokens_to_text concatenates raw_text of every token; spacing_before / '
                   'spacing_after read _tokens_to_text of the raw accessor of the same side and assign _text_to_tokens(value) to it')
     m = p.module('models.internal.spacing_accessors')
     mx = p.cls('SpacingAccessorsMixin', 'models.internal.spacing_accessors')
@@ -377,8 +377,8 @@ def rule_sp_route(ctx: RuleContext, p: Program, rid: str) -> None:
 
     problem = ''
     n = 0
-    for k in range(0, 5):
-        for chars in itertools.product(' \t\r\nx', repeat=k):
+    for k in range(0, 6):
+        for chars in itertools.product((' ', '\t', '\n', '\r\n'), repeat=k):
             text = ''.join(chars)
             n += 1
             try:
